@@ -201,6 +201,9 @@ def run(tier):
             for j, rep in enumerate(plist):
                 sres = slist[j] if len(slist) == len(plist) else None
                 for kind, ls, sl in (("primary", rep["primary"], sres["locs"] if sres else []), ("secondary", rep["secondary"], sres["related"] if sres else [])):
+                    # the secondary labels of a finding come out of a hash set: paired by position, not by the order of emission
+                    ls = sorted(ls, key=lambda l_: (l_["s"], l_["e"]))
+                    sl = sorted(sl, key=lambda r_: (r_["sl"], r_["sc"], r_["el"], r_["ec"]))
                     for q, l in enumerate(ls):
                         sreg = sl[q] if q < len(sl) and len(sl) == len(ls) else None
                         labels.append({"file": 1 if l["flen"] >= 0 else 0, "s": l["s"], "e": l["e"], "primary": kind == "primary",
